@@ -194,7 +194,7 @@ class ActionContext(abc.ABC):
             return False
         if self.location_action.condition is None or len(self.location_action.condition.strip()) == 0:
             return True
-        result = self.trigger_context.evaluate_expression(self.location_action.condition)
+        result = self.trigger_context.evaluate_condition(self.location_action.id, self.location_action.condition)
         if isinstance(result, BaseException):
             # the condition failed to evaluate (evaluate_expression returns the error), so it is not met
             return False
